@@ -253,13 +253,19 @@ Section Model.
 
   (* ----- From<ScoringMatrix> ----- *)
 
-  Definition build (m : list (list (cell T))) (bg : list T) : res (dist T) :=
-    if negb (forallb (fun row => (length row =? length bg)%nat) m) then Err 1 else
+  (* (offset, scale) as f64 *)
+  Definition stage_a (m : list (list (cell T))) : res (T * T) :=
     small0 <- small_of m ;;
     large <- large_of m ;;
     let small := if eqb_n small0 large then n_sub N large one else small0 in
     let offset := n_floor N small in
     let scale := n_floor N (n_div N (n_of_Z N (Z.of_nat cdf_range)) (n_sub N large offset)) in
+    Ok (offset, scale).
+
+  Definition build (m : list (list (cell T))) (bg : list T) : res (dist T) :=
+    if negb (forallb (fun row => (length row =? length bg)%nat) m) then Err 1 else
+    os <- stage_a m ;;
+    let '(offset, scale) := os in
     let data := map (map (disc_cell offset scale)) m in
     pdf <- pdf_of bg data ;;
     s <- survival pdf ;;
